@@ -842,10 +842,15 @@ func (e *Engine) normEvent(ev string) string {
 	return ev
 }
 
-
 // fnCallsNamed: fn contains a direct call of the function or interface method called name ("KeyValue.Update",
 // "attemptAcquire").
 func (u *Unit) fnCallsNamed(fn *ssa.Function, name string) bool {
+	return u.fnCallsNamedDepth(fn, name, 3)
+}
+
+// fnCallsNamedDepth also looks into the package helpers without a contract that fn calls (they are inlined where
+// they are called, so what they call is what fn calls).
+func (u *Unit) fnCallsNamedDepth(fn *ssa.Function, name string, depth int) bool {
 	for _, b := range fn.Blocks {
 		for _, in := range b.Instrs {
 			ci, ok := in.(ssa.CallInstruction)
@@ -864,12 +869,16 @@ func (u *Unit) fnCallsNamed(fn *ssa.Function, name string) bool {
 				if k == name || bareName(k) == name {
 					return true
 				}
+				if depth > 0 && sc.Pkg == fn.Pkg && sc.Blocks != nil && u.eng.cs.Funcs[k] == nil {
+					if u.fnCallsNamedDepth(sc, name, depth-1) {
+						return true
+					}
+				}
 			}
 		}
 	}
 	return false
 }
-
 
 // contractParamNames: the names under which a contract knows the parameters of its function. They are the names of
 // its header, bound by position, so that renaming a receiver or a parameter in the code does not detach the contract;
